@@ -9,7 +9,7 @@ DESCRIPTION = {
              "{batched,unbatched}, and batches of 1-6 mixed messages; plus a serialization-cache history (A,B,A,mutate+uncache,A). Oracle: "
              "unserialize(serialize(batch)) has the same length/order/classes, marshal(result)==marshal(original) (deep, type-strict), every public "
              "attribute equal after the stated normalisation, is_binary flag == serializer.BINARY and JSON output decodes as UTF-8, cached bytes == "
-             "fresh bytes.  Non-trivial = >=2 optional fields present, or payload with bytes/nesting/|int|>=2^32, or batch>=2; distinct by "
+             "fresh bytes; every received message object, re-serialized alone through the same serializer instance (forwarding), comes back as exactly that message.  Non-trivial = >=2 optional fields present, or payload with bytes/nesting/|int|>=2^32, or batch>=2; distinct by "
              "(class, present fields, serializer, batched, payload digest)."),
     "assumptions": [
         "absent == falsy default (None/False/''/[]/{}) and tuple == list are treated as equal field values (the wire format omits defaults)",
@@ -97,6 +97,19 @@ def check_batch(ser, batch, case):
             # absent==empty for trailing args/kwargs
             if not W.deep_eq(strip_trailing(W.norm(mar)), strip_trailing(W.norm(m2))):
                 raise Violation("C03|marshal-differs|%s" % cname, "orig %r / after %r" % (brief(mar), brief(m2)), case)
+    # forwarding: each *received* message object goes through the same serializer instance once more, alone (what a router/proxy does): it must
+    # come back as exactly that one message
+    for orig, got in zip(msgs, back):
+        try:
+            b2, _ = ser.serialize(got)
+            again = ser.unserialize(b2, ser._serializer.BINARY)
+        except Exception as e:
+            raise Violation("C03|forward|raises|%s|%s" % (type(orig).__name__, exc_key(e)), repr(e), case)
+        if len(again) != 1 or type(again[0]) is not type(orig):
+            raise Violation("C03|forward|batch-length-or-class", "a received %s re-serialized alone came back as %r" % (type(orig).__name__, [type(x).__name__ for x in again]), case)
+        diffs = W.attrs_equal(orig, again[0])
+        if diffs:
+            raise Violation("C03|forward|field-changed|%s|%s" % (type(orig).__name__, diffs[0][0]), "fields differ after the second trip: %r" % (brief(diffs[:3]),), case)
 
 
 def strip_trailing(l):
